@@ -1,60 +1,70 @@
 """C14 -- all views of the model stay mutually consistent under any edit history.
 
-Each rule looks at ONE operation (a registration site, a deletion method, a setter, a view accessor).  That histories are covered
-"by induction over operations" is an informal argument of the author: no code performs or checks an induction, and most rules decide
-the presence, pairing and textual order of calls, not their effect.
+Each rule looks at ONE operation (a registration site, a deletion method, a setter, a view accessor) or at a short history of ONE element.
+That longer histories are covered "by induction over operations" is an informal argument of the author: no code performs or checks an induction.
 
 Techniques (DESIGN 2b):
-* T1, AST pattern matching with agreement of call-site tables; registry attribute and tag are compared as text, keys are not compared:
-  R-C14-1a, -1b, -1d, -1e, -1f, -3.  R-C14-1 itself is only the family name of 1a..1g (nothing is emitted under it).
-* T1 by LINE-NUMBER ORDER of statements, not by control flow (no CFG, no dominators): R-C14-1c, -2, -4, -6, -7.  R-C14-2 decides
-  "remove_usage may raise" by the substring 'in self._usage' in unparsed if-tests; R-C14-4 takes the first raise by lineno and recognises
-  its guard by the substrings _usage / force / not / requires().
+* T3, interpreted histories (sa/concrete.py running the repository's own registry and element classes on the fixture LinkWorld; nothing is
+  imported; isinstance is decided by the class hierarchy of the source, so unreachable elif arms are not taken) -- rule_histories:
+  - R-C14-8 / R-C14-3: add -> (re-assign through the public setters / add_demand) -> remove of one link (add_pipe, add_pump HEAD/POWER with and
+    without speed pattern, add_valve of six types), of every leaf class of the Link hierarchy with every usage-filing property set, of a
+    junction / tank / reservoir / source / pattern / curve of each type: afterwards no registry holds a usage record naming the element, its
+    registry keeps no usage entry under its name (also when an empty entry existed), and no view of its registry holds the name.
+  - R-C14-2: the same removals when the records the element filed are already gone still empty every view (no half-way abort).
+  - R-C14-5 (filing part): registry[name] = <bare instance of K> files the name under exactly the typed sets of K and its ancestors (TYPED_SETS).
+  - R-C14-4 (registry part): del registry[name] of an element whose usage entry is non-empty raises RuntimeError and changes nothing, for a bare
+    instance of every class of TYPED_SETS and for a curve, a pattern and a source.
+  - R-C14-5s: both end-node setters on a pipe for all 8 (start, end, new) configurations over two nodes.
+  Fixture: WaterNetworkModel without constructor, the five registries by their constructors, three bare junctions, six curves and two patterns
+  added by the registries' own methods, options = {time: None, hydraulic.pattern: None}; collections.abc mix-ins written out in the interpreted
+  subset (ABC_MIXINS); LinkStatus as IntEnum read from base.py.  add_tank(vol_curve=...) is not interpreted (2-D numpy indexing): the tank's
+  curve is assigned through Tank.vol_curve_name.
+* T1, AST pattern matching with agreement of call-site tables; registry attribute and tag are compared as text after local temporaries are
+  resolved through their single assignment (deref); keys are not compared: R-C14-1a, -1b, -1d, -1e, -1f.  R-C14-1 itself is only the family
+  name of 1a..1g (nothing is emitted under it).
+* T1 by LINE-NUMBER ORDER of statements, not by control flow: R-C14-1c, -6, -7 and the remove_node / remove_link part of R-C14-4 (first raise by
+  lineno; guard recognised by the substrings force / not / requires()).
 * T1 with real CFG dominance (sa/cfg.py): R-C14-4b only.
 * presence match: R-C14-1g (the TimeSeries.pattern_name setter contains an add_usage and a remove_usage call; registry, key and order
   are not examined).
-* R-C14-5: single-return accessors and the isinstance dispatch of __setitem__ by AST pattern; the typed generators are run by the local
-  evaluator GenEval (sa/peval subclass) once per concrete type argument -- T3, exhaustive over that finite domain.  Its adjacency clause
-  is a TEXT match: the substring `self._node_reg.get_usage(node_name)` in get_links_for_node, `.nodes()` / `.links()` in to_graph;
-  nothing is validated against the link's end nodes here (that fixture evaluation lives in C01, R-C01-2).
-* T3, interpreted histories (sa/concrete.py on the repository's own registry and element classes; nothing imported): R-C14-8 -- for each
-  public way to create a link (add_pipe, add_pump HEAD/POWER, add_valve of six types; with and without re-assigning pattern, curve and
-  start node through the setters) and for each leaf class of the Link hierarchy (every usage-filing property set): add, remove, then no
-  registry holds a usage record naming the link and no view of the link registry holds its name.  isinstance is decided by the class
-  hierarchy read from the source, so unreachable elif arms are not taken.  Fixture: one link, three bare junctions, patterns as names only.
-* T3, exhaustive over a finite domain: R-C14-5s (abstract_setter on all 8 (start, end, new) configurations over two abstract nodes,
-  for both end-node setters; expression values are resolved by exact unparsed text).
+* R-C14-5 (views): single-return accessors by AST pattern; the typed generators are run by the local evaluator GenEval (sa/peval subclass) once
+  per concrete type argument -- T3, exhaustive over that finite domain.  Its adjacency clause is a TEXT match: the substring
+  `self._node_reg.get_usage(node_name)` in get_links_for_node, `.nodes()` / `.links()` in to_graph; nothing is validated against the link's
+  end nodes here (that fixture evaluation lives in C01, R-C01-2).
 """
 import ast
 from ..src import (walk, calls, call_name, last_attr, dotted, norm, loc, const, AnchorError,
-                   parent, enclosing, stmt_of, unparse)
+                   parent, enclosing, unparse)
 
 MODEL = "wntr/network/model.py"
 BASE = "wntr/network/base.py"
 ELEM = "wntr/network/elements.py"
 
 EXPLANATION = (
-    "Registry bookkeeping of wntr/network/{model,base,elements}.py, decided from the shape of the code (T1 structural unless noted; mostly AST "
-    "pattern matching with registry and tag compared as text; no edit history is executed). R-C14-1 = family name of 1a-1g: (1a) every "
-    "add_usage(registry, tag) of a user class has a remove_usage with the same registry and tag in the kind's __delitem__, (1b) and conversely; "
-    "(1c) a method calling both removes on an earlier LINE than it adds; (1d, 1e, 1f) a usage key is a name, never a Pattern object or its "
-    "truthiness; (1g, presence only) the TimeSeries.pattern_name setter contains an add_usage and a remove_usage call. R-C14-2 (line-number order, "
-    "substring test 'in self._usage'): after the primary store is popped under a swallowed KeyError no remove_usage that may raise precedes "
-    "remaining bookkeeping. R-C14-3 (table agreement): typed subsets filled on insertion are discarded in __delitem__. R-C14-4 (first raise by "
-    "line number, guard by substrings _usage/force/requires()): the 'still used' refusal comes before every mutation. R-C14-4b (CFG dominance): the "
-    "registry deletion dominates every remove_control in remove_node/remove_link. R-C14-5: name list, count and typed iterator of a kind read one "
-    "typed set (AST pattern; the typed generators are run per type argument by the local evaluator GenEval: T3, exhaustive over the type "
-    "arguments); adjacency is a text match on get_links_for_node / to_graph, not validated against end nodes. R-C14-5s (T3, all 8 two-node "
-    "configurations per end-node setter): usage flags follow the link's ends. R-C14-6 / R-C14-7 (line-number order): duplicate-name refusal "
-    "precedes construction in 9 add_* methods; Link.__init__ looks up both end nodes before the first add_usage. R-C14-8 (T3, histories of one "
-    "link interpreted on the repository's own registries by sa/concrete.py: 9 public add_* variants x {plain, pattern/curve/start node re-assigned} "
-    "and every leaf class of the Link hierarchy with all usage-filing properties set): after remove_link / del registry[name] no usage record "
-    "names the link and no view of the link registry holds it; isinstance follows the class hierarchy of the source.")
+    "Registry bookkeeping of wntr/network/{model,base,elements}.py. Interpreted (T3, sa/concrete.py runs the repository's own registry and element "
+    "classes on a small fixture; nothing imported; isinstance follows the class hierarchy of the source): R-C14-8/-3 add -> (re-assign) -> remove of "
+    "one link of every public add_* variant, of every leaf class of the Link hierarchy, of a junction/tank/reservoir/source/pattern/curve leaves no "
+    "usage record naming the element, no usage entry under its name and its name in no view; R-C14-2 the same removals complete when the element's "
+    "records are already gone; R-C14-5 (filing) registry[name]=<K> files the name under exactly the typed sets of K and its ancestors; R-C14-4 "
+    "(registries) deleting an element whose usage entry is non-empty raises RuntimeError and changes nothing; R-C14-5s both end-node setters on all 8 "
+    "two-node configurations. Structural (T1, AST pattern matching; registry and tag compared as text after resolving local temporaries): R-C14-1 = "
+    "family name of 1a-1g: (1a) every add_usage(registry, tag) of a user class has a remove_usage with the same registry and tag in the kind's "
+    "__delitem__, (1b) and conversely; (1c) a method calling both removes on an earlier LINE than it adds; (1d, 1e, 1f) a usage key is a name, never "
+    "a Pattern object or its truthiness; (1g, presence only) the TimeSeries.pattern_name setter contains an add_usage and a remove_usage call. "
+    "R-C14-4 (remove_node/remove_link part: first raise by line number, guard by substrings force/requires()): the refusal because of a control "
+    "precedes the deletion. R-C14-4b (CFG dominance): the registry deletion dominates every remove_control in remove_node/remove_link. R-C14-5 "
+    "(views): name list, count and typed iterator of a kind read one typed set (single-return accessors by AST pattern; the typed generators are run "
+    "per type argument by the local evaluator GenEval: T3, exhaustive over the type arguments); adjacency is a text match on get_links_for_node / "
+    "to_graph, not validated against end nodes. R-C14-6 / R-C14-7 (line-number order): duplicate-name refusal precedes construction in 9 add_* "
+    "methods; Link.__init__ looks up both end nodes before the first add_usage.")
 RULE_TEXT = ("one instance = one (rule, construct): a usage registration site, a deletion method, a typed subset, a view accessor; "
              "distinct = distinct constructs")
 
+# class -> the typed name set of its registry that lists the instances of the class (instances of subclasses included)
+TYPED_SETS = {"Junction": "_junctions", "Tank": "_tanks", "Reservoir": "_reservoirs", "Pipe": "_pipes", "Pump": "_pumps", "HeadPump": "_head_pumps",
+              "PowerPump": "_power_pumps", "Valve": "_valves", "PRValve": "_prvs", "PSValve": "_psvs", "PBValve": "_pbvs", "TCValve": "_tcvs",
+              "FCValve": "_fcvs", "GPValve": "_gpvs"}
 REG_ATTRS = ("_pattern_reg", "_curve_reg", "_node_reg", "_link_reg", "_sources", "_controls")
-NODE_CLASSES = ("Junction", "Tank", "Reservoir")
 DELITEM_OF_KIND = {"node": "NodeRegistry", "link": "LinkRegistry", "source": "SourceRegistry"}
 
 
@@ -92,46 +102,18 @@ def usage_sites(fn):
         op = last_attr(c)
         if op not in ("add_usage", "remove_usage"):
             continue
-        recv = c.func.value if isinstance(c.func, ast.Attribute) else None
+        # temporaries are resolved through their single assignment: `user = (self.name, 'Pump')`, `old = self.start_node_name`, `reg = self._curve_reg`
+        recv = deref(fn, c.func.value) if isinstance(c.func, ast.Attribute) else None
         reg = recv.attr if isinstance(recv, ast.Attribute) else (recv.id if isinstance(recv, ast.Name) else None)
         if len(c.args) < 2:
             continue
-        tag = c.args[1]
+        tag = deref(fn, c.args[1])
         tagtxt = None
         if isinstance(tag, ast.Tuple) and len(tag.elts) == 2:
             t = tag.elts[1]
             tagtxt = repr(const(t)) if const(t) is not None else ("<link_type>" if (isinstance(t, ast.Attribute) and t.attr == "link_type") else unparse(t))
-        out.append((op, reg, tagtxt, c.args[0], c))
+        out.append((op, reg, tagtxt, deref(fn, c.args[0]), c))
     return out
-
-
-def may_raise_keyerror_remove_usage(repo):
-    """True iff Registry.remove_usage subscripts self._usage[key] without a dominating `key in self._usage` test."""
-    fn = repo.func(BASE, "Registry.remove_usage")
-    for n in walk(fn):
-        if isinstance(n, ast.Subscript) and dotted(n.value) == "self._usage":
-            p = parent(n)
-            guarded = False
-            q = n
-            while q is not None and q is not fn:
-                par = parent(q)
-                if isinstance(par, ast.If) and q in par.body:
-                    t = unparse(par.test)
-                    if "in self._usage" in t and "not in" not in t:
-                        guarded = True
-                if isinstance(par, ast.Try) and q in par.body and any(
-                        h.type is None or "KeyError" in unparse(h.type) or "Exception" in unparse(h.type) for h in par.handlers):
-                    guarded = True
-                q = par
-            # early-return idiom: `if key not in self._usage: return` before the subscript
-            for s in fn.body:
-                if s.lineno >= n.lineno:
-                    break
-                if isinstance(s, ast.If) and "not in self._usage" in unparse(s.test) and any(isinstance(x, ast.Return) for x in s.body):
-                    guarded = True
-            if not guarded:
-                return True, fn
-    return False, fn
 
 
 def flat_stmts(body):
@@ -147,51 +129,6 @@ def flat_stmts(body):
             for h in s.handlers:
                 out.extend(flat_stmts(h.body))
     return out
-
-
-def subsets_const(cls):
-    """class-level list constants of strings, e.g. LinkRegistry.__subsets."""
-    out = {}
-    for n in cls.body:
-        if isinstance(n, ast.Assign) and isinstance(n.value, (ast.List, ast.Tuple)):
-            vals = [const(e) for e in n.value.elts]
-            if vals and all(isinstance(v, str) for v in vals):
-                for t in n.targets:
-                    if isinstance(t, ast.Name):
-                        out[t.id] = vals
-    return out
-
-
-def set_ops(fn, cls, op):
-    """attrs X such that self.X.<op>(...) occurs in fn (resolving `for ss in self.<const>: getattr(self, ss).<op>`)."""
-    found = set()
-    consts = subsets_const(cls)
-    for c in calls(fn, attr=op):
-        recv = c.func.value
-        d = dotted(recv)
-        if d and d.startswith("self.") and d.count(".") == 1:
-            found.add(d.split(".")[1])
-        elif isinstance(recv, ast.Name):
-            # idiom: for subset in (self._a, self._b, ...): subset.<op>(key)
-            loop = enclosing(c, ast.For)
-            while loop is not None and not (isinstance(loop.target, ast.Name) and loop.target.id == recv.id):
-                loop = enclosing(loop, ast.For)
-            if loop is not None and isinstance(loop.iter, (ast.Tuple, ast.List)):
-                for e in loop.iter.elts:
-                    de = dotted(e)
-                    if de and de.startswith("self.") and de.count(".") == 1:
-                        found.add(de.split(".")[1])
-        elif isinstance(recv, ast.Call) and call_name(recv) == "getattr" and len(recv.args) == 2 and isinstance(recv.args[1], ast.Name):
-            loop = enclosing(c, ast.For)
-            while loop is not None and not (isinstance(loop.target, ast.Name) and loop.target.id == recv.args[1].id):
-                loop = enclosing(loop, ast.For)
-            if loop is not None:
-                it = loop.iter
-                nm = it.attr if isinstance(it, ast.Attribute) else (it.id if isinstance(it, ast.Name) else None)
-                for k, v in consts.items():
-                    if nm and (nm == k or nm.endswith(k)):
-                        found.update(v)
-    return found
 
 
 def find_delitem(repo, clsname):
@@ -509,13 +446,111 @@ def _link_status_enum(repo):
     return enum.IntEnum("LinkStatus", mem)
 
 
+# the collections.abc mix-in methods the registries / Demands inherit, written out in the interpreted subset exactly as the stdlib defines them
+# in terms of the abstract methods (__getitem__, __setitem__, __delitem__, __len__, __iter__, insert, add, discard)
+ABC_MIXINS = '''
+class MutableSequence(object):
+    def __iter__(self):
+        i = 0
+        try:
+            while True:
+                v = self[i]
+                yield v
+                i += 1
+        except IndexError:
+            return
+    def __contains__(self, value):
+        for v in self:
+            if v is value or v == value:
+                return True
+        return False
+    def index(self, value):
+        i = 0
+        for v in self:
+            if v is value or v == value:
+                return i
+            i += 1
+        raise ValueError("value not in sequence")
+    def count(self, value):
+        return sum(1 for v in self if v is value or v == value)
+    def append(self, value):
+        self.insert(len(self), value)
+    def extend(self, values):
+        for v in values:
+            self.append(v)
+    def pop(self, index=-1):
+        v = self[index]
+        del self[index]
+        return v
+    def remove(self, value):
+        del self[self.index(value)]
+    def clear(self):
+        while len(self) > 0:
+            self.pop()
+    def __iadd__(self, values):
+        self.extend(values)
+        return self
+
+
+class MutableMapping(object):
+    def __contains__(self, key):
+        try:
+            self[key]
+        except KeyError:
+            return False
+        return True
+    def get(self, key, default=None):
+        try:
+            return self[key]
+        except KeyError:
+            return default
+    def keys(self):
+        return [k for k in self]
+    def values(self):
+        return [self[k] for k in self]
+    def items(self):
+        return [(k, self[k]) for k in self]
+    def pop(self, key, *default):
+        try:
+            value = self[key]
+        except KeyError:
+            if default:
+                return default[0]
+            raise
+        del self[key]
+        return value
+    def setdefault(self, key, default=None):
+        try:
+            return self[key]
+        except KeyError:
+            self[key] = default
+        return default
+
+
+class MutableSet(object):
+    def remove(self, value):
+        if value not in self:
+            raise KeyError(value)
+        self.discard(value)
+    def clear(self):
+        for v in list(self):
+            self.discard(v)
+    def isdisjoint(self, other):
+        for v in other:
+            if v in self:
+                return False
+        return True
+'''
+
+
 class LinkWorld(object):
     """A model made of the repository's own registries, interpreted (never imported): WaterNetworkModel without its constructor, the five
     registries built by their real constructors and _finalize_, three bare junctions N1..N3 placed in the node registry, four curves added
     through CurveRegistry.add_curve.  Patterns are only names (add_usage does not look the pattern up).  isinstance is decided by the real
     class hierarchy of elements.py, so an unreachable `elif isinstance(link, HeadPump)` after `if isinstance(link, Pump)` is simply not taken."""
 
-    CURVES = ("CRV_A", "CRV_B", "HL_A", "HL_B")
+    CURVES = (("CRV_A", "HEAD"), ("CRV_B", "HEAD"), ("HL_A", "HEADLOSS"), ("HL_B", "HEADLOSS"), ("VOL_A", "VOLUME"), ("VOL_B", "VOLUME"))
+    PATTERNS = ("PAT_A", "PAT_B")
 
     def __init__(self, repo):
         import collections
@@ -523,17 +558,19 @@ class LinkWorld(object):
         self.Instance = Instance
         ov, _state = stdlib_overrides()
         ov["six"] = Namespace("six", with_metaclass=lambda meta, *bases: (bases[0] if bases else object), string_types=(str,), integer_types=(int,))
-        # the ABC mix-ins contribute nothing the registries rely on here (every operator used is defined by the repository classes)
-        ov["collections.abc.MutableMapping"] = object
-        ov["collections.abc.MutableSet"] = object
         ov["wntr.network.base.LinkStatus"] = _link_status_enum(repo)
         self.world = World(repo, ov)
         self.I = self.world.interp
+        # collections.abc mix-ins: classes of the interpreted world (their methods run on the repository classes' own abstract methods)
+        for cd in ast.parse(ABC_MIXINS).body:
+            self.world.overrides["collections.abc." + cd.name] = ClassRef(self.I, cd, self.world.ctx(BASE))
         wm = self.world.function(MODEL, "WaterNetworkModel")
         if not isinstance(wm, ClassRef):
             raise AnchorError("WaterNetworkModel is not a class of %s" % MODEL)
         self.wn = Instance(wm)
-        self.wn._attrs.update(_options=None, _controls=collections.OrderedDict())
+        # options: only `.time` (Pattern(..., time_options=options.time)) and `.hydraulic.pattern` (name of the default pattern) are read on the
+        # paths interpreted here; None = no time options / no default pattern
+        self.wn._attrs.update(_options=Namespace("options", time=None, hydraulic=Namespace("options.hydraulic", pattern=None)), _controls=collections.OrderedDict())
         self.regs = collections.OrderedDict()
         for attr, cname in (("_pattern_reg", "PatternRegistry"), ("_curve_reg", "CurveRegistry"), ("_node_reg", "NodeRegistry"),
                             ("_link_reg", "LinkRegistry"), ("_sources", "SourceRegistry")):
@@ -546,8 +583,10 @@ class LinkWorld(object):
             j = Instance(jc)
             j._attrs["_name"] = n
             self.store(self.regs["_node_reg"])[n] = j
-        for c in self.CURVES:
-            self.call(self.regs["_curve_reg"], "add_curve", c, "HEAD", [(0.0, 40.0), (0.05, 30.0), (0.1, 10.0)])
+        for c, t in self.CURVES:
+            self.call(self.regs["_curve_reg"], "add_curve", c, t, [(0.0, 40.0), (0.05, 30.0), (0.1, 10.0)])
+        for p_ in self.PATTERNS:
+            self.call(self.regs["_pattern_reg"], "add_pattern", p_, [1.0, 0.5])
 
     def call(self, obj, meth, *a, **k):
         return self.I.call(self.I.getattr_(obj, meth), list(a), k)
@@ -567,9 +606,9 @@ class LinkWorld(object):
                     out.add((attr, key, tuple(t) if isinstance(t, (list, tuple)) else t))
         return out
 
-    def views_holding(self, name):
-        """the link registry's containers (primary store and typed subsets) that still contain `name`"""
-        lr = self.regs["_link_reg"]
+    def views_holding(self, name, reg=None):
+        """the containers of a registry (default: the link registry) -- primary store and typed subsets -- that contain `name`"""
+        lr = reg if reg is not None else self.regs["_link_reg"]
         out = []
         for attr, v in sorted(lr._attrs.items()):
             if isinstance(v, dict) and attr != "_usage" and name in v:
@@ -613,85 +652,207 @@ def filing_setters(repo, cname, bases):
     return out
 
 
-def rule_link_histories(repo, chk):
-    """R-C14-8: for every way the public API creates a link (add_pipe, add_pump of each pump type, add_valve of each valve type) and for
-    every concrete class of the Link hierarchy: add the link, optionally re-assign its pattern / curve / start node through the public
-    setters, remove it -- afterwards no registry holds a usage record naming the link and no view of the link registry holds its name."""
-    from ..concrete import ProgramError, Unsupported
+def rule_histories(repo, chk, want):
+    """Interpreted histories of ONE element on the repository's own registries (LinkWorld):
+    R-C14-8  add -> (re-assign) -> remove: afterwards no registry holds a usage record naming the element, and the owning registry keeps no
+             usage entry under its name;
+    R-C14-3  ... and no view (primary store, typed subset) of the owning registry holds its name;
+    R-C14-5  registry[name] = <instance of K> files the name under exactly the typed sets of K and its ancestors (table `want`);
+    R-C14-4  del registry[name] of an element with a non-empty usage record raises RuntimeError and leaves every registry unchanged."""
+    from ..concrete import ProgramError
     from ..src import ExtractError
     bases, links, leaves = link_hierarchy(repo)
     if len(leaves) < 3:
         raise AnchorError("Link hierarchy not found (leaves: %s)" % leaves)
-    lrd = repo.func(MODEL, "LinkRegistry.__delitem__")
-    chk.fn(lrd)
+    USER = LINK_USER
+    delfn = {a: find_delitem(repo, c)[0] for a, c in (("_link_reg", "LinkRegistry"), ("_node_reg", "NodeRegistry"), ("_sources", "SourceRegistry"),
+                                                     ("_curve_reg", "CurveRegistry"), ("_pattern_reg", "PatternRegistry"))}
+    for f in delfn.values():
+        chk.fn(f)
 
     def mine(recs):
-        return sorted(r for r in recs if isinstance(r[2], tuple) and r[2] and r[2][0] == LINK_USER)
+        return sorted(r for r in recs if isinstance(r[2], tuple) and r[2] and r[2][0] == USER)
 
     def attempt(what, thunk):
         try:
             return thunk()
         except ProgramError as e:
-            raise ExtractError("R-C14-8 %s: the interpreted program raised %s" % (what, e))
+            raise ExtractError("C14 history %s: the interpreted program raised %s" % (what, e))
 
-    def verdict(lw, construct, created, filed, removed_how):
+    def verdict(lw, owner, construct, created, filed, removed_how, min_filed=()):
         left = mine(lw.records())
-        views = lw.views_holding(LINK_USER)
-        if len([r for r in filed if r[0] == "_node_reg"]) < 2:
-            raise ExtractError("R-C14-8 %s: the link did not register at its two end nodes in the interpreted model (filed %s)" % (construct, filed))
-        chk.expect(not left and not views, "R-C14-8", construct, loc(lrd),
-                   "every usage record a link files while it exists must be released when it is removed: a record left behind names a user that no longer exists, and "
+        views = lw.views_holding(USER, lw.regs[owner])
+        orphan = USER in lw.store(lw.regs[owner], "_usage")
+        for reg_, n_ in min_filed:
+            if len([r for r in filed if r[0] == reg_]) < n_:
+                raise ExtractError("C14 history %s: expected at least %d record(s) on %s in the interpreted model (filed %s)" % (construct, n_, reg_, filed))
+        chk.expect(not left and not orphan, "R-C14-8", "%s releases every usage record of %s" % (removed_how, construct), loc(delfn[owner]),
+                   "every usage record an element files while it exists must be released when it is removed: a record left behind names a user that no longer exists, and "
                    "remove_curve / remove_pattern / remove_node of the element it points at is refused for ever (interpreted history on the repository's own registries; "
                    "isinstance follows the real class hierarchy: %s is %s)" % (created, " < ".join(mro(created, bases)[:4])),
-                   expected="no record of %r and %r in no view after %s" % (LINK_USER, LINK_USER, removed_how),
-                   found="records left: %s; views still holding the name: %s; filed while it existed: %s" % (left, views, filed))
+                   expected="no record naming %r afterwards" % USER,
+                   found="records left: %s; own usage entry kept: %s; filed while it existed: %s" % (left, orphan, filed))
+        chk.expect(not views, "R-C14-3", "%s takes %s out of every view of its registry" % (removed_how, construct), loc(delfn[owner]),
+                   "a name filed under the primary store and the typed subsets on insertion must leave all of them when the element is deleted "
+                   "(else counts, name lists and iterators keep a ghost)", expected="no view holds %r" % USER, found="still in %s" % views)
         chk.sample({"rule": "R-C14-8", "history": construct, "class": created, "filed": [list(map(str, r)) for r in filed], "left": [list(map(str, r)) for r in left]})
         return created
 
-    # ---- (a) histories through the public API of the model
-    hist = [("add_pipe", {}, "pipe")]
-    hist += [("add_pump", dict(pump_type=t, pump_parameter=("CRV_A" if t == "HEAD" else 20.0), pattern="PAT_A"), "%s pump" % t) for t in ("HEAD", "POWER")]
-    hist += [("add_valve", dict(valve_type=t, initial_setting=("HL_A" if t == "GPV" else 1.0)), t) for t in ("PRV", "PSV", "PBV", "FCV", "TCV", "GPV")]
-    reassign = (("speed_pattern_name", "PAT_B"), ("pump_curve_name", "CRV_B"), ("headloss_curve_name", "HL_B"), ("start_node", "N3"))
-    covered = set()
+    def run_history(owner, label, add, steps, remove, min_filed=(), empty_record=False, records_gone=False):
+        """add = (method of wn, args, kwargs); steps = [(text, callable(lw, elem))]; remove = method of wn"""
+        lw = LinkWorld(repo)
+        attempt("%s(%s)" % (add[0], label), lambda: lw.call(lw.wn, add[0], *add[1], **add[2]))
+        elem = lw.store(lw.regs[owner]).get(USER)
+        if not isinstance(elem, lw.Instance):
+            raise ExtractError("C14 history: %s did not store %r in the %s" % (add[0], USER, owner))
+        for text, step in steps:
+            attempt("%s: %s" % (label, text), lambda: step(lw, elem))
+        filed = mine(lw.records())
+        if empty_record:
+            # somebody used the element and stopped: clear_usage leaves an EMPTY usage entry under its name
+            attempt("add_usage / clear_usage", lambda: (lw.call(lw.regs[owner], "add_usage", USER, ("someone", "Junction")), lw.call(lw.regs[owner], "clear_usage", USER)))
+            if USER not in lw.store(lw.regs[owner], "_usage"):
+                raise ExtractError("C14 history: clear_usage did not leave an empty usage entry")
+        if records_gone:
+            # R-C14-2: the records the element filed have already disappeared (cleared by hand, or never filed: known finding R-C14-1g):
+            # releasing an absent record must not abort the removal half-way (a swallowed KeyError would leave the name in the typed views)
+            for reg_, key_, tag_ in filed:
+                attempt("remove_usage by hand", lambda: lw.call(lw.regs[reg_], "remove_usage", key_, tag_))
+            attempt("%s(%s)" % (remove, label), lambda: lw.call(lw.wn, remove, USER))
+            views = lw.views_holding(USER, lw.regs[owner])
+            chk.expect(not views and not mine(lw.records()), "R-C14-2", "wn.%s completes for a %s whose usage records are already gone" % (remove, label), loc(delfn[owner]),
+                       "after the element left the primary store, a release of a record that is absent must not raise into the swallowing `except KeyError`: "
+                       "the remaining discards / releases would be skipped (partial removal)", expected="no view holds %r" % USER, found="still in %s" % views)
+            return elem._cls.name, filed
+        attempt("%s(%s)" % (remove, label), lambda: lw.call(lw.wn, remove, USER))
+        how = "wn.%s" % remove
+        construct = "a %s added by %s%s%s" % (label, add[0], "".join(" then " + t for t, _s in steps), " (empty usage entry under its own name)" if empty_record else "")
+        return verdict(lw, owner, construct, elem._cls.name, filed, how, min_filed), filed
+
+    def setter(prop, val, node=False):
+        return ("%s = %s" % (prop, val), lambda lw, e: lw.I.setattr_(e, prop, lw.store(lw.regs["_node_reg"])[val] if node else val))
+
+    def method(name, *a):
+        return ("%s(%s)" % (name, ", ".join(map(repr, a))), lambda lw, e: lw.call(e, name, *a))
+
+    # ---- (a) links through the public API of the model
+    ends = (USER, "N1", "N2")
+    two_nodes = (("_node_reg", 2),)
     any_curve = any_pattern = False
-    for meth, kw, label in hist:
-        for variant in ("", " after re-assigning its pattern / curve / start node"):
-            lw = LinkWorld(repo)
-            attempt("%s(%s)" % (meth, label), lambda: lw.call(lw.wn, meth, LINK_USER, "N1", "N2", **kw))
-            link = lw.store(lw.regs["_link_reg"]).get(LINK_USER)
-            if not isinstance(link, lw.Instance):
-                raise ExtractError("R-C14-8: %s did not store the link %r in LinkRegistry._data" % (meth, LINK_USER))
-            if variant:
-                for prop, val in reassign:
-                    if link._cls.find(prop + ".setter")[0] is not None and (prop == "start_node" or any(prop == p for p, _r in filing_setters(repo, link._cls.name, bases))):
-                        v = lw.store(lw.regs["_node_reg"])[val] if prop == "start_node" else val
-                        attempt("%s.%s = %s" % (link._cls.name, prop, val), lambda: lw.I.setattr_(link, prop, v))
-            filed = mine(lw.records())
+    covered = set()
+    link_hist = [("pipe", ("add_pipe", ends, {}), [])]
+    link_hist += [("%s pump" % t, ("add_pump", ends, dict(pump_type=t, pump_parameter=("CRV_A" if t == "HEAD" else 20.0), pattern="PAT_A")),
+                   [setter("speed_pattern_name", "PAT_B")] + ([setter("pump_curve_name", "CRV_B")] if t == "HEAD" else [])) for t in ("HEAD", "POWER")]
+    link_hist += [("%s pump without a speed pattern" % t, ("add_pump", ends, dict(pump_type=t, pump_parameter=("CRV_A" if t == "HEAD" else 20.0))), None) for t in ("HEAD", "POWER")]
+    link_hist += [(t, ("add_valve", ends, dict(valve_type=t, initial_setting=("HL_A" if t == "GPV" else 1.0))), [setter("headloss_curve_name", "HL_B")] if t == "GPV" else [])
+                  for t in ("PRV", "PSV", "PBV", "FCV", "TCV", "GPV")]
+    for label, add, re_ in link_hist:
+        for steps in ([[]] if re_ is None else [[], re_ + [setter("start_node", "N3", node=True)]]):
+            cls_, filed = run_history("_link_reg", label, add, steps, "remove_link", two_nodes)
+            covered.add(cls_)
             any_curve |= any(r[0] == "_curve_reg" for r in filed)
             any_pattern |= any(r[0] == "_pattern_reg" for r in filed)
-            attempt("remove_link(%s)" % label, lambda: lw.call(lw.wn, "remove_link", LINK_USER))
-            covered.add(verdict(lw, "remove_link releases every usage record of a %s added by %s%s" % (label, meth, variant), link._cls.name, filed, "wn.remove_link"))
+    run_history("_link_reg", "pipe", ("add_pipe", ends, {}), [], "remove_link", two_nodes, empty_record=True)
+    for label, add, re_ in link_hist:
+        if re_:
+            run_history("_link_reg", label, add, [], "remove_link", two_nodes, records_gone=True)
     if not (any_curve and any_pattern):
-        raise ExtractError("R-C14-8: no history filed a curve and a pattern usage record: the interpreted model does not exercise the clause")
-    # ---- (b) every concrete class of the hierarchy, with every usage-filing property set
+        raise ExtractError("C14 histories: no link history filed a curve and a pattern usage record: the interpreted model does not exercise the clause")
+    # ---- (b) every concrete class of the Link hierarchy, with every usage-filing property set
     for cname in leaves:
         lw = LinkWorld(repo)
         lr = lw.regs["_link_reg"]
-        link = attempt("%s(...)" % cname, lambda: lw.I.call(lw.world.function(ELEM, cname), [LINK_USER, "N1", "N2", lr], {}))
+        link = attempt("%s(...)" % cname, lambda: lw.I.call(lw.world.function(ELEM, cname), [USER, "N1", "N2", lr], {}))
         for prop, reg in filing_setters(repo, cname, bases):
             if prop in ("start_node", "end_node"):
                 continue
             val = {"_curve_reg": "CRV_B", "_pattern_reg": "PAT_B"}.get(reg)
             if val is None:
-                raise ExtractError("R-C14-8: %s.%s files on %s: no stand-in value known" % (cname, prop, reg))
+                raise ExtractError("C14 histories: %s.%s files on %s: no stand-in value known" % (cname, prop, reg))
             attempt("%s.%s = %s" % (cname, prop, val), lambda: lw.I.setattr_(link, prop, val))
-        attempt("registry[%r] = %s" % (LINK_USER, cname), lambda: lw.I.setitem(lr, LINK_USER, link))
+        attempt("registry[%r] = %s" % (USER, cname), lambda: lw.I.setitem(lr, USER, link))
         filed = mine(lw.records())
-        attempt("del registry[%r] (%s)" % (LINK_USER, cname), lambda: lw.I.call(lw.I.getattr_(lr, "__delitem__"), [LINK_USER], {}))
-        verdict(lw, "LinkRegistry.__delitem__ releases every usage record a %s can hold" % cname, cname, filed, "del registry[name]")
-    chk.note("R-C14-8: link classes created through the public API: %s; concrete classes of the hierarchy: %s" % (sorted(covered), leaves))
-    chk.floor("R-C14-8", 18 + 3)
+        attempt("del registry[%r] (%s)" % (USER, cname), lambda: lw.I.call(lw.I.getattr_(lr, "__delitem__"), [USER], {}))
+        verdict(lw, "_link_reg", "a %s holding every usage record it can hold" % cname, cname, filed, "LinkRegistry.__delitem__", two_nodes)
+    # ---- (c) nodes, sources, curves, patterns through the public API
+    one_pat = (("_pattern_reg", 1),)
+    other = [
+        ("_node_reg", "junction with a demand pattern", ("add_junction", (USER,), dict(base_demand=1.0, demand_pattern="PAT_A")), [[], [method("add_demand", 0.5, "PAT_B")]], "remove_node", one_pat),
+        ("_node_reg", "junction without a demand pattern", ("add_junction", (USER,), {}), [[]], "remove_node", ()),
+        ("_node_reg", "tank", ("add_tank", (USER,), {}), [[], [setter("vol_curve_name", "VOL_A")], [setter("vol_curve_name", "VOL_A"), setter("vol_curve_name", "VOL_B")]], "remove_node", ()),
+        ("_node_reg", "reservoir with a head pattern", ("add_reservoir", (USER,), dict(head_pattern="PAT_A")), [[], [setter("head_pattern_name", "PAT_B")]], "remove_node", one_pat),
+        ("_node_reg", "reservoir without a head pattern", ("add_reservoir", (USER,), {}), [[]], "remove_node", ()),
+        ("_sources", "source", ("add_source", (USER, "N1", "CONCEN", 1.0, "PAT_A"), {}), [[]], "remove_source", (("_pattern_reg", 1), ("_node_reg", 1))),
+        ("_sources", "source without a pattern", ("add_source", (USER, "N1", "CONCEN", 1.0), {}), [[]], "remove_source", (("_node_reg", 1),)),
+        ("_pattern_reg", "pattern", ("add_pattern", (USER, [1.0, 2.0]), {}), [[]], "remove_pattern", ()),
+    ] + [("_curve_reg", "%s curve" % t, ("add_curve", (USER, t, [(0.0, 1.0), (1.0, 2.0)]), {}), [[]], "remove_curve", ()) for t in ("HEAD", "EFFICIENCY", "HEADLOSS", "VOLUME")]
+    for owner, label, add, variants, remove, minf in other:
+        for k, steps in enumerate(variants):
+            cls_, filed = run_history(owner, label, add, steps, remove, minf)
+            if owner == "_node_reg" and label == "tank" and steps and not any(r[0] == "_curve_reg" for r in filed):
+                raise ExtractError("C14 histories: the tank's volume curve record was not filed in the interpreted model")
+        run_history(owner, label, add, [], remove, minf, empty_record=True)
+        if minf:
+            run_history(owner, label, add, [], remove, minf, records_gone=True)
+    run_history("_node_reg", "tank", ("add_tank", (USER,), {}), [setter("vol_curve_name", "VOL_A")], "remove_node", (("_curve_reg", 1),), records_gone=True)
+    chk.note("C14 histories: link classes created through the public API: %s; concrete classes of the Link hierarchy: %s" % (sorted(covered), leaves))
+    chk.floor("R-C14-8", 30)
+    chk.floor("R-C14-3", 30)
+    chk.floor("R-C14-2", 6)
+
+    # ---- (d) filing: registry[name] = instance of K  ->  exactly the typed sets of K and its ancestors
+    lw = LinkWorld(repo)
+    elems = []     # (registry attr, key, class)
+    for k in sorted(want):
+        kind = kind_of_class(k, bases)
+        owner = {"node": "_node_reg", "link": "_link_reg"}.get(kind)
+        if owner is None:
+            raise AnchorError("class %s of the typed-set table is neither a node nor a link" % k)
+        inst = lw.Instance(lw.world.function(ELEM, k))       # a bare instance: filing only looks at the class
+        key = "E_" + k
+        attempt("registry[%r] = <%s>" % (key, k), lambda: lw.I.setitem(lw.regs[owner], key, inst))
+        got = sorted(v for v in lw.views_holding(key, lw.regs[owner]) if v != "_data")
+        exp = sorted({want[a] for a in mro(k, bases) if a in want})
+        stored = "_data" in lw.views_holding(key, lw.regs[owner])
+        chk.expect(got == exp and stored, "R-C14-5", "__setitem__ files a %s under %s" % (k, want[k]), loc(MODEL),
+                   "interpreted: registry[name] = <%s> must put the name into the primary store and into exactly the typed sets of %s" % (k, " and ".join(mro(k, bases)[:-1] or [k])),
+                   expected=exp, found="%s%s" % (got, "" if stored else " (not in _data)"))
+        elems.append((owner, key, k))
+    # ---- (e) refusal: an element somebody still uses is not removed, and nothing at all changes
+    for owner, cname in (("_curve_reg", "Curve"), ("_pattern_reg", "Pattern"), ("_sources", "Source")):
+        key = "E_" + cname
+        inst = lw.Instance(lw.world.function(ELEM, cname))
+        lw.store(lw.regs[owner])[key] = inst
+        if owner == "_curve_reg":
+            # a curve is also listed in a typed view: file it there through the registry's own method
+            inst._attrs.update(_name=key, _curve_type="HEAD", _points=[])
+            attempt("set_curve_type", lambda: lw.call(lw.regs[owner], "set_curve_type", key, "HEAD"))
+        elems.append((owner, key, cname))
+    for owner, key, cname in elems:
+        attempt("add_usage", lambda: lw.call(lw.regs[owner], "add_usage", key, ("someone", "Junction")))
+
+    def snapshot():
+        return (sorted(map(str, lw.records())),
+                {a: {v: sorted(lw.store(r, v)) if isinstance(r._attrs[v], dict) else sorted(lw.I.iterate(r._attrs[v]))
+                     for v in sorted(r._attrs) if v != "_usage" and (isinstance(r._attrs[v], dict) or (isinstance(r._attrs[v], lw.Instance) and r._attrs[v]._cls.name == "OrderedSet"))}
+                 for a, r in lw.regs.items()})
+    for owner, key, cname in elems:
+        before = snapshot()
+        outcome = "returned normally"
+        try:
+            lw.I.call(lw.I.getattr_(lw.regs[owner], "__delitem__"), [key], {})
+        except ProgramError as e:
+            outcome = "raised %s" % type(e.exc).__name__
+        after = snapshot()
+        changed = [(a, v) for a in before[1] for v in before[1][a] if before[1][a][v] != after[1].get(a, {}).get(v)] + (["usage records"] if before[0] != after[0] else [])
+        rcn = delfn[owner]._qual.split(".")[0] if hasattr(delfn[owner], "_qual") else owner
+        chk.expect(outcome == "raised RuntimeError" and not changed, "R-C14-4",
+                   "%s.__delitem__ refuses removal of a %s that is still used and leaves the model unchanged" % ({"_link_reg": "LinkRegistry", "_node_reg": "NodeRegistry", "_sources": "SourceRegistry", "_curve_reg": "CurveRegistry", "_pattern_reg": "PatternRegistry"}[owner], cname),
+                   loc(delfn[owner]),
+                   "interpreted on a registry whose usage entry for the element is non-empty: the removal must raise RuntimeError (not swallowed by a handler) "
+                   "before anything is mutated; governing method %s" % rcn,
+                   expected="raised RuntimeError, nothing changed", found="%s; changed: %s" % (outcome, changed or "nothing"))
+    chk.floor("R-C14-4", len(want) + 3)
 
 
 def run(repo, chk):
@@ -761,80 +922,10 @@ def run(repo, chk):
     chk.floor("R-C14-1a", 8)
     chk.floor("R-C14-1b", 9)
     chk.floor("R-C14-1c", 8)
-    rule_link_histories(repo, chk)
 
-    # ---------------------------------------------------------------- R-C14-2 / R-C14-4
-    can_raise, ru = may_raise_keyerror_remove_usage(repo)
-    chk.fn(ru)
-    chk.note("Registry.remove_usage may raise KeyError on an absent key: %s" % can_raise)
-    for rname, fn in sorted(delitems.items()):
-        own = getattr(fn, "_qual", "").split(".")[0]
-        if own != rname and rname not in ("PatternRegistry", "CurveRegistry"):
-            pass
-        stmts = flat_stmts(fn.body)
-        pops = [s for s in stmts if any(isinstance(c.func, ast.Attribute) and c.func.attr == "pop" and dotted(c.func.value) == "self._data" for c in calls(s)) and not isinstance(s, (ast.Try, ast.If, ast.For))]
-        delegated = False
-        if not pops:
-            # delegation idiom: super().__delitem__(key) performs refusal + pop (checked on the base class)
-            pops = [s for s in stmts if not isinstance(s, (ast.Try, ast.If, ast.For)) and any(
-                last_attr(c) == "__delitem__" and isinstance(c.func.value, ast.Call) and call_name(c.func.value) == "super" for c in calls(s))]
-            delegated = bool(pops)
-        if not pops:
-            raise AnchorError("%s.__delitem__: no self._data.pop and no super().__delitem__" % own)
-        pop = pops[0]
-        tries = [s for s in stmts if isinstance(s, ast.Try)]
-        swallow = None
-        for t in tries:
-            if t.lineno <= pop.lineno <= max(getattr(x, "end_lineno", x.lineno) for x in t.body):
-                for h in t.handlers:
-                    ht = unparse(h.type) if h.type is not None else "<bare>"
-                    reraises = any(isinstance(x, ast.Raise) for x in walk(h))
-                    if (h.type is None or "KeyError" in ht or ht in ("Exception", "BaseException", "LookupError")) and not reraises:
-                        swallow = ht
-        after = [s for s in stmts if s.lineno > pop.lineno and not isinstance(s, (ast.Try, ast.If, ast.For, ast.Return))]
-        # bookkeeping statements after the pop: discards and remove_usage calls
-        book = [s for s in after if calls(s, attr="discard") or calls(s, attr="remove_usage")]
-        hazards = []
-        for i, s in enumerate(book):
-            risky = (can_raise and calls(s, attr="remove_usage"))
-            if risky and swallow and i < len(book) - 1:
-                hazards.append(s)
-        if own == rname or rname in ("PatternRegistry", "CurveRegistry"):
-            key = "%s.__delitem__ (%s)" % (rname, own)
-            chk.expect(not hazards, "R-C14-2", "%s: no KeyError-raising call between _data.pop and the remaining bookkeeping" % key,
-                       loc(fn, hazards[0] if hazards else pop),
-                       "after the element left _data, a remove_usage that raises KeyError (swallowed by `except %s`) skips the remaining discards / usage removals: partial removal" % swallow,
-                       expected="discards first, or a remove_usage that cannot raise", found=[norm(h) for h in hazards[:3]])
-        # R-C14-4: refusal precedes mutation, is conditional on usage, is not swallowed
-        raises = [s for s in stmts if isinstance(s, ast.Raise) and not isinstance(parent(s), ast.ExceptHandler)]
-        muts = [s for s in stmts if not isinstance(s, (ast.Try, ast.If, ast.For)) and
-                (calls(s, attr="pop") or calls(s, attr="discard") or calls(s, attr="remove_usage") or isinstance(s, ast.Delete))]
-        key = "%s.__delitem__ (%s)" % (rname, own)
-        if delegated:
-            before = [m for m in muts if m.lineno < pop.lineno]
-            chk.expect(not before, "R-C14-4", "%s delegates refusal to the base class before mutating anything" % key, loc(fn, pop),
-                       "no mutation may precede super().__delitem__ (which refuses removal of a used element)", found=[norm(b) for b in before])
-        elif not raises:
-            chk.bad("R-C14-4", "%s refuses removal of an element that is still used" % key, loc(fn), "no raise found in __delitem__")
-        else:
-            r0 = raises[0]
-            cond = enclosing(r0, ast.If)
-            okc = cond is not None and "_usage" in unparse(cond.test)
-            first_mut = min(m.lineno for m in muts) if muts else 10 ** 9
-            chk.expect(okc and r0.lineno < first_mut, "R-C14-4", "%s refuses removal of an element that is still used" % key, loc(fn, r0),
-                       "the still-used raise must be guarded by the usage test and precede every mutation",
-                       found="raise at line %d, first mutation at line %d, guard %s" % (r0.lineno, first_mut, unparse(cond.test) if cond is not None else None))
-            exc = unparse(r0.exc.func) if isinstance(r0.exc, ast.Call) else unparse(r0.exc)
-            caught = False
-            for t in tries:
-                if t.lineno <= r0.lineno <= max(getattr(x, "end_lineno", x.lineno) for x in t.body):
-                    for h in t.handlers:
-                        ht = unparse(h.type) if h.type is not None else "<bare>"
-                        if h.type is None or exc in ht or ht in ("Exception", "BaseException"):
-                            if not any(isinstance(x, ast.Raise) for x in walk(h)):
-                                caught = True
-            chk.expect(not caught, "R-C14-4", "%s: the refusal (%s) is not swallowed by an enclosing handler" % (key, exc), loc(fn, r0),
-                       "an enclosing except clause would swallow the refusal")
+    # ---------------------------------------------------------------- R-C14-2 / -3 / -4 / -8 and the filing part of R-C14-5: interpreted histories
+    rule_histories(repo, chk, TYPED_SETS)
+    # R-C14-4 (static part): remove_node / remove_link refuse, unless forced, while a control requires the element
     for meth, reg in (("remove_node", "_node_reg"), ("remove_link", "_link_reg")):
         fn = repo.func(MODEL, "WaterNetworkModel.%s" % meth)
         chk.fn(fn)
@@ -944,31 +1035,6 @@ def run(repo, chk):
                    found="%d refusal(s), first construction at line %s" % (len(refusals), first_effect))
     chk.floor("R-C14-6", 9)
 
-    # ---------------------------------------------------------------- R-C14-3
-    for rname in ("NodeRegistry", "LinkRegistry", "CurveRegistry"):
-        c = reg_classes[rname]
-        m = repo.methods(c)
-        added = set()
-        for mn in ("__setitem__", "set_curve_type"):
-            if mn in m:
-                added |= set_ops(m[mn], c, "add")
-        inits = set()
-        if "__init__" in m:
-            for tgt, attr, st in __import__("sa.src", fromlist=["attr_stores"]).attr_stores(m["__init__"]):
-                if isinstance(st, ast.Assign) and isinstance(st.value, ast.Call) and call_name(st.value) == "OrderedSet":
-                    inits.add(attr)
-        dfn = delitems[rname]
-        disc = set_ops(dfn, c if getattr(dfn, "_qual", "").startswith(rname) else repo.cls(BASE, "Registry"), "discard") | \
-            set_ops(dfn, c if getattr(dfn, "_qual", "").startswith(rname) else repo.cls(BASE, "Registry"), "remove")
-        if not (added | inits):
-            raise AnchorError("%s: no typed subsets found" % rname)
-        for s in sorted(added | inits):
-            chk.expect(s in disc, "R-C14-3", "%s typed subset %s is discarded on deletion" % (rname, s), loc(dfn),
-                       "a name added to a typed subset on insertion must leave it when the element is deleted (else counts, name lists and iterators keep a ghost)",
-                       expected="self.%s.discard(key) in the governing __delitem__ (%s)" % (s, getattr(dfn, "_qual", "?")), found=sorted(disc))
-        chk.expect(added <= inits or not inits, "R-C14-3", "%s: every subset written in __setitem__ is created in __init__" % rname, loc(c))
-    chk.floor("R-C14-3", 3 + 11 + 4)
-
     # ---------------------------------------------------------------- R-C14-5
     def prop_return(cls, name):
         fn = repo.methods(cls).get(name)
@@ -1044,21 +1110,6 @@ def run(repo, chk):
         allv = iterated_set(ge.stream("__call__", []))
         chk.expect(allv == "_data", "R-C14-5", "%s.__call__() iterates the primary store" % rcn, loc(fn),
                    "wn.nodes() / wn.links() without a type must yield every element of _data", expected="_data", found=allv)
-    # __setitem__ type dispatch: isinstance(value, T) -> set of T
-    want = {"Junction": "_junctions", "Tank": "_tanks", "Reservoir": "_reservoirs", "Pipe": "_pipes", "Pump": "_pumps", "HeadPump": "_head_pumps",
-            "PowerPump": "_power_pumps", "Valve": "_valves", "PRValve": "_prvs", "PSValve": "_psvs", "PBValve": "_pbvs", "TCValve": "_tcvs",
-            "FCValve": "_fcvs", "GPValve": "_gpvs"}
-    got = {}
-    for rcn in ("NodeRegistry", "LinkRegistry"):
-        fn = repo.methods(reg_classes[rcn])["__setitem__"]
-        for n in walk(fn):
-            if isinstance(n, ast.If) and isinstance(n.test, ast.Call) and call_name(n.test) == "isinstance":
-                t = n.test.args[1]
-                adds_ = [c for s in n.body for c in calls(s, attr="add") if stmt_of(c) in n.body]
-                if isinstance(t, ast.Name) and adds_:
-                    got[t.id] = (dotted(adds_[0].func.value) or "")[5:]
-    for t, s in sorted(want.items()):
-        chk.expect(got.get(t) == s, "R-C14-5", "__setitem__ files a %s under %s" % (t, s), loc(MODEL), expected=s, found=got.get(t))
     # adjacency view
     fn = repo.func(MODEL, "WaterNetworkModel.get_links_for_node")
     chk.fn(fn)
@@ -1097,74 +1148,35 @@ def run(repo, chk):
                    us[0][3] is not None and ("%s_name" % which) in unparse(us[0][3]), "R-C14-5",
                    "Link.%s setter un-registers the old %s and registers the new one" % (which, which), loc(st),
                    found=[(u[0], unparse(u[3])) for u in us])
-    # R-C14-5s: abstract execution of both setters over every configuration of (start, end, new node) drawn from two nodes:
-    # afterwards a node's usage record holds the link iff the link starts or ends there
+    # R-C14-5s: both setters interpreted (sa/concrete.py, LinkWorld) on a pipe for every configuration of (start, end, new node) drawn from
+    # two nodes: afterwards a node's usage record holds the link iff the link starts or ends there
+    from ..concrete import ProgramError
+    from ..src import ExtractError
+    nodes_xy = {"X": "N1", "Y": "N2"}
     for which in ("start_node", "end_node"):
         st = repo.func(BASE, "Link.%s" % which, kind="setter")
-        param = st.args.args[1].arg
         for s0 in "XY":
             for e0 in "XY":
                 for new in "XY":
-                    res = abstract_setter(st, which, param, s0, e0, new)
+                    lw = LinkWorld(repo)
+                    try:
+                        lw.call(lw.wn, "add_pipe", LINK_USER, nodes_xy[s0], nodes_xy[e0])
+                        link = lw.store(lw.regs["_link_reg"])[LINK_USER]
+                        lw.I.setattr_(link, which, lw.store(lw.regs["_node_reg"])[nodes_xy[new]])
+                    except ProgramError as e:
+                        raise ExtractError("R-C14-5s Link.%s = %s on %s->%s: the interpreted program raised %s" % (which, new, s0, e0, e))
+                    held = {r[1] for r in lw.records() if r[0] == "_node_reg" and isinstance(r[2], tuple) and r[2][:1] == (LINK_USER,)}
+                    res = {n: (nodes_xy[n] in held) for n in "XY"}
                     ends = {new, e0} if which == "start_node" else {s0, new}
                     want = {n: (n in ends) for n in "XY"}
                     chk.expect(res == want, "R-C14-5s",
                                "Link.%s = %s on a link %s->%s leaves usage records exactly at the link's end nodes" % (which, new, s0, e0), loc(st),
-                               "abstract execution of the setter: usage[node] must contain the link iff the link starts or ends at node "
+                               "interpreted on the repository's registries: usage[node] must contain the link iff the link starts or ends at node "
                                "(get_links_for_node, remove_node's refusal and the mass balance rows read these records)", expected=want, found=res)
     chk.floor("R-C14-5s", 16)
     chk.floor("R-C14-5", 14 + 2 + 14 + 3 + 4)
 
 
-
-def abstract_setter(fn, which, param, s0, e0, new):
-    """execute a Link end-node setter on abstract state: ends (s0, e0), new node `new`; usage[n] = link recorded at node n.
-    Only the statement forms the setters use are interpreted; anything else is an extraction error (never a guess)."""
-    from ..src import ExtractError
-    st = {"start": s0, "end": e0}
-    usage = {n: (n in (s0, e0)) for n in "XY"}
-
-    def val(e):
-        t = unparse(e)
-        if t in ("self.start_node_name", "self._start_node.name", "self.start_node.name"):
-            return st["start"]
-        if t in ("self.end_node_name", "self._end_node.name", "self.end_node.name"):
-            return st["end"]
-        if t in ("%s.name" % param, "%s._name" % param):
-            return new
-        raise ExtractError("Link.%s setter: cannot evaluate %s" % (which, t))
-
-    def test(t):
-        if isinstance(t, ast.Constant) and isinstance(t.value, bool):
-            return t.value
-        if isinstance(t, ast.Compare) and len(t.ops) == 1 and isinstance(t.ops[0], (ast.Eq, ast.NotEq, ast.Is, ast.IsNot)):
-            a, b = val(t.left), val(t.comparators[0])
-            return (a == b) if isinstance(t.ops[0], (ast.Eq, ast.Is)) else (a != b)
-        if isinstance(t, ast.BoolOp):
-            vs = [test(v) for v in t.values]
-            return all(vs) if isinstance(t.op, ast.And) else any(vs)
-        if isinstance(t, ast.UnaryOp) and isinstance(t.op, ast.Not):
-            return not test(t.operand)
-        raise ExtractError("Link.%s setter: cannot evaluate test %s" % (which, unparse(t)))
-
-    def run_(body):
-        for s_ in body:
-            if isinstance(s_, ast.Expr) and isinstance(s_.value, ast.Constant):
-                continue
-            if isinstance(s_, ast.If):
-                run_(s_.body if test(s_.test) else s_.orelse)
-            elif isinstance(s_, ast.Expr) and isinstance(s_.value, ast.Call) and last_attr(s_.value) in ("remove_usage", "add_usage") and "_node_reg" in unparse(s_.value.func):
-                n = val(s_.value.args[0])
-                usage[n] = last_attr(s_.value) == "add_usage"
-            elif isinstance(s_, ast.Assign) and unparse(s_.targets[0]) in ("self._start_node", "self._end_node"):
-                v = s_.value
-                inner = v.slice if isinstance(v, ast.Subscript) else v
-                tgt = new if unparse(inner) in (param, "%s.name" % param) else val(inner)
-                st["start" if unparse(s_.targets[0]) == "self._start_node" else "end"] = tgt
-            else:
-                raise ExtractError("Link.%s setter: statement not interpreted: %s" % (which, norm(s_)))
-    run_(fn.body)
-    return usage
 
 WITNESSES = [
     dict(name="duplicate-source-name-accepted", file=MODEL, old='        if name in self._sources:\n            raise ValueError("Source name already exists")\n', new="", rule="R-C14-6"),
@@ -1233,6 +1245,31 @@ WITNESSES = [
          new='            if isinstance(link, Pump):\n                self._pattern_reg.remove_usage(link.speed_pattern_name, (link.name, "Pump"))\n                if isinstance(link, HeadPump):\n                    self._curve_reg.remove_usage(link.pump_curve_name, (link.name, "Pump"))\n            elif isinstance(link, GPValve):\n                self._curve_reg.remove_usage(link.headloss_curve_name, (link.name, "Valve"))\n', silent=True),
     dict(name="release-mro-dispatch-preserving", file=MODEL, old='            if isinstance(link, GPValve):\n                self._curve_reg.remove_usage(link.headloss_curve_name, (link.name, "Valve"))\n            if isinstance(link, Pump):\n                self._pattern_reg.remove_usage(link.speed_pattern_name, (link.name, "Pump"))\n            if isinstance(link, HeadPump):\n                self._curve_reg.remove_usage(link.pump_curve_name, (link.name, "Pump"))\n',
          new='            for klass in type(link).__mro__:\n                if klass is GPValve:\n                    self._curve_reg.remove_usage(link.headloss_curve_name, (link.name, "Valve"))\n                elif klass is Pump:\n                    self._pattern_reg.remove_usage(link.speed_pattern_name, (link.name, "Pump"))\n                elif klass is HeadPump:\n                    self._curve_reg.remove_usage(link.pump_curve_name, (link.name, "Pump"))\n', silent=True),
+    # ---- typed-set filing, refusal and usage pairing are decided on interpreted histories / with temporaries resolved
+    dict(name="setitem-class-table-preserving", file=MODEL, old='        if isinstance(value, Junction):\n            self._junctions.add(key)\n        elif isinstance(value, Tank):\n            self._tanks.add(key)\n        elif isinstance(value, Reservoir):\n            self._reservoirs.add(key)\n',
+         new='        for node_class, typed_set in ((Junction, "_junctions"), (Tank, "_tanks"), (Reservoir, "_reservoirs")):\n            if isinstance(value, node_class):\n                getattr(self, typed_set).add(key)\n                break\n', silent=True),
+    dict(name="setitem-subclass-table-preserving", file=MODEL, old='        elif isinstance(value, Pump):\n            self._pumps.add(key)\n            if isinstance(value, HeadPump):\n                self._head_pumps.add(key)\n            elif isinstance(value, PowerPump):\n                self._power_pumps.add(key)\n',
+         new='        elif isinstance(value, Pump):\n            self._pumps.add(key)\n            for sub_class, sub_set in ((HeadPump, "_head_pumps"), (PowerPump, "_power_pumps")):\n                if isinstance(value, sub_class):\n                    getattr(self, sub_set).add(key)\n                    break\n', silent=True),
+    dict(name="setitem-class-table-wrong-set", file=MODEL, old='        if isinstance(value, Junction):\n            self._junctions.add(key)\n        elif isinstance(value, Tank):\n            self._tanks.add(key)\n        elif isinstance(value, Reservoir):\n            self._reservoirs.add(key)\n',
+         new='        for node_class, typed_set in ((Junction, "_junctions"), (Tank, "_junctions"), (Reservoir, "_reservoirs")):\n            if isinstance(value, node_class):\n                getattr(self, typed_set).add(key)\n                break\n', rule="R-C14-5"),
+    dict(name="setitem-cascade-shadows-subclass", file=MODEL, old='        elif isinstance(value, Pump):\n            self._pumps.add(key)\n            if isinstance(value, HeadPump):\n                self._head_pumps.add(key)\n            elif isinstance(value, PowerPump):\n                self._power_pumps.add(key)\n',
+         new='        elif isinstance(value, Pump):\n            self._pumps.add(key)\n        elif isinstance(value, HeadPump):\n            self._head_pumps.add(key)\n        elif isinstance(value, PowerPump):\n            self._power_pumps.add(key)\n', rule="R-C14-5"),
+    dict(name="refusal-guard-flattened-preserving", file=MODEL, old='            if self._usage and key in self._usage and len(self._usage[key]) > 0:\n                raise RuntimeError(\n                    "cannot remove %s %s, still used by %s" % (self.__class__.__name__, key, str(self._usage[key]))\n                )\n            elif key in self._usage:\n                self._usage.pop(key)\n            node = self._data.pop(key)\n',
+         new='            if key in self._usage:\n                users = self._usage[key]\n                if len(users) > 0:\n                    raise RuntimeError(\n                        "cannot remove %s %s, still used by %s" % (self.__class__.__name__, key, str(users))\n                    )\n                self._usage.pop(key)\n            node = self._data.pop(key)\n', silent=True),
+    dict(name="refusal-guard-flattened-base-preserving", file=BASE, old="            if self._usage and key in self._usage and len(self._usage[key]) > 0:\n                raise RuntimeError('cannot remove %s %s, still used by %s', \n                                   self.__class__.__name__,\n                                   key,\n                                   self._usage[key])\n            elif key in self._usage:\n                self._usage.pop(key)\n            return self._data.pop(key)\n",
+         new="            if key in self._usage:\n                users = self._usage[key]\n                if len(users) > 0:\n                    raise RuntimeError('cannot remove %s %s, still used by %s', self.__class__.__name__, key, users)\n                self._usage.pop(key)\n            return self._data.pop(key)\n", silent=True),
+    dict(name="refusal-guard-off-by-one", file=MODEL, old='            if self._usage and key in self._usage and len(self._usage[key]) > 0:\n                raise RuntimeError(\n                    "cannot remove %s %s, still used by %s" % (self.__class__.__name__, key, str(self._usage[key]))\n                )\n            elif key in self._usage:\n                self._usage.pop(key)\n            node = self._data.pop(key)\n',
+         new='            if key in self._usage:\n                users = self._usage[key]\n                if len(users) > 1:\n                    raise RuntimeError(\n                        "cannot remove %s %s, still used by %s" % (self.__class__.__name__, key, str(users))\n                    )\n                self._usage.pop(key)\n            node = self._data.pop(key)\n', rule="R-C14-4"),
+    dict(name="refusal-after-pop", file=BASE, old="            if self._usage and key in self._usage and len(self._usage[key]) > 0:\n                raise RuntimeError('cannot remove %s %s, still used by %s', \n                                   self.__class__.__name__,\n                                   key,\n                                   self._usage[key])\n            elif key in self._usage:\n                self._usage.pop(key)\n            return self._data.pop(key)\n",
+         new="            element = self._data.pop(key)\n            if key in self._usage:\n                users = self._usage[key]\n                if len(users) > 0:\n                    raise RuntimeError('cannot remove %s %s, still used by %s', self.__class__.__name__, key, users)\n                self._usage.pop(key)\n            return element\n", rule="R-C14-4"),
+    dict(name="setter-usage-entry-in-local-preserving", file=ELEM, old="        self._curve_reg.remove_usage(self._vol_curve_name, (self._name, 'Tank'))\n        self._curve_reg.add_usage(name, (self._name, 'Tank'))\n",
+         new="        user = (self._name, 'Tank')\n        self._curve_reg.remove_usage(self._vol_curve_name, user)\n        self._curve_reg.add_usage(name, user)\n", silent=True),
+    dict(name="end-node-setter-locals-preserving", file=BASE, old='        if self.start_node_name != self.end_node_name:  # otherwise the end of the link still uses that node\n            self._node_reg.remove_usage(self.start_node_name, (self._link_name, self.link_type))\n        self._node_reg.add_usage(node.name, (self._link_name, self.link_type))\n',
+         new='        user = (self._link_name, self.link_type)\n        old_name = self.start_node_name\n        if old_name != self.end_node_name:\n            self._node_reg.remove_usage(old_name, user)\n        self._node_reg.add_usage(node.name, user)\n', silent=True),
+    dict(name="setter-usage-entry-in-local-wrong-tag", file=ELEM, old="        self._curve_reg.remove_usage(self._vol_curve_name, (self._name, 'Tank'))\n        self._curve_reg.add_usage(name, (self._name, 'Tank'))\n",
+         new="        user = (self._name, 'tank')\n        self._curve_reg.remove_usage(self._vol_curve_name, user)\n        self._curve_reg.add_usage(name, user)\n", rule="R-C14-1"),
+    dict(name="remove-usage-raises-on-absent-record", file=BASE, old='        if not key or key not in self._usage:\n            return\n        for arg in args:\n            self._usage[key].discard(arg)\n',
+         new='        if not key:\n            return\n        for arg in args:\n            self._usage[key].discard(arg)\n', rule="R-C14-2"),
     dict(name="rename-local-preserving", file=MODEL, old="            node = self._data.pop(key)\n            self._junctions.discard(key)",
          new="            node = self._data.pop(key)\n            self._junctions.discard(key)\n            _n = node", silent=True),
 ]
